@@ -681,9 +681,11 @@ func genG1(g *Gen) {
 		for len(queue) < k {
 			c := large[g.Intn(len(large))]
 			switch len(queue) {
-			case 0:
-				c.n = []int{189, 190, 191}[g.Intn(3)]
+			case 0: // always: the expanded entry point just above the Straus/Pippenger threshold (mixed static/dynamic terms)
+				c.op, c.n = "xmsmvt", []int{191, 192, 200}[g.Intn(3)]
 			case 1:
+				c.op, c.n = "msmvt", []int{189, 190, 191}[g.Intn(3)]
+			case 2:
 				c.n = []int{499, 500, 501, 799, 800, 801}[g.Intn(6)]
 			}
 			queue = append(queue, c)
